@@ -9,7 +9,7 @@ namespace Reamber.Timing
 
 /-! ### `list.sort(key=snap)` on an ascending list -/
 
-theorem Snap.not_lt_of_le {a b : Snap} (h : a.le b = true) : b.lt a = false := by
+theorem Snap.lt_false_of_le {a b : Snap} (h : a.le b = true) : b.lt a = false := by
   simp only [Snap.le, Snap.lt, Snap.eqv, Bool.or_eq_true, Bool.and_eq_true, decide_eq_true_eq] at h
   simp only [Snap.lt, Bool.or_eq_false_iff, Bool.and_eq_false_iff, decide_eq_false_iff_not]
   rcases h with (h | ⟨h1, h2⟩) | ⟨h1, h2⟩
@@ -27,7 +27,7 @@ theorem isort_sorted (l : List BcSnap) (h : sortedSnaps l = true) : sortBcSnap l
     | cons b t' =>
       simp only [sortedSnaps, Bool.and_eq_true] at h
       rw [List.foldr_cons, ih h.2]
-      simp [insertBy, Snap.not_lt_of_le h.1]
+      simp [insertBy, Snap.lt_false_of_le h.1]
 
 /-! ### the relative offsets -/
 
